@@ -3200,8 +3200,9 @@ pub fn cmd_mt(a: &Args) -> i32 {
             }
             "slow" => {
                 // handlers that take longer than one second of wall time (metrics must not lose whole seconds)
-                let rt = tokio::runtime::Builder::new_multi_thread().worker_threads(4).enable_time().build().unwrap();
-                let durs: Vec<u64> = if secs >= 20 { vec![1_050_000, 2_300_000, 30_000, 999_000] } else { vec![1_050_000, 30_000] };
+                // 4.4 s exceeds what a u32 holds in nanoseconds (4.29 s): wrap-arounds in duration arithmetic show as a lost maximum
+                let durs: Vec<u64> = if secs >= 20 { vec![1_050_000, 2_300_000, 30_000, 999_000, 4_400_000] } else { vec![1_050_000, 30_000, 4_400_000] };
+                let rt = tokio::runtime::Builder::new_multi_thread().worker_threads(durs.len() + 1).enable_time().build().unwrap();
                 rt.block_on(async {
                     let mut hs = vec![];
                     for (k, d) in durs.iter().enumerate() {
